@@ -37,14 +37,4 @@ def newTr (c c' : Cfg) : List Tr := c'.tr.take (c'.tr.length - c.tr.length)
 /-- `App.run()` has been entered: the `apprun` instruction (which resets the force-quit flag) is no longer pending -/
 def AfterStart (c : Cfg) : Prop := Instr.apprun ∉ c.code
 
-/-- the signal a handler-call instruction belongs to: `callH _ _ s` (a handler about to be entered) and `gCall s _ _`
-(the `for handler in handlers` loop of `_run_handlers` for `s`) -/
-def Instr.callSig : Instr → Option Sig
-  | .callH _ _ s => some s
-  | .gCall s _ _ => some s
-  | _ => none
-
-/-- the signals whose dispatch (`_run_handlers`' handler loop) is in progress, innermost first -/
-def Cfg.inDispatch (c : Cfg) : List Sig := c.code.filterMap Instr.callSig
-
 end Simpleline.G
